@@ -1,0 +1,41 @@
+//go:build verif
+
+/*
+ * Licensed to the Apache Software Foundation (ASF) under one or more
+ * contributor license agreements.  See the NOTICE file distributed with
+ * this work for additional information regarding copyright ownership.
+ * The ASF licenses this file to You under the Apache License, Version 2.0
+ * (the "License"); you may not use this file except in compliance with
+ * the License.  You may obtain a copy of the License at
+ *
+ *     http://www.apache.org/licenses/LICENSE-2.0
+ *
+ * Unless required by applicable law or agreed to in writing, software
+ * distributed under the License is distributed on an "AS IS" BASIS,
+ * WITHOUT WARRANTIES OR CONDITIONS OF ANY KIND, either express or implied.
+ * See the License for the specific language governing permissions and
+ * limitations under the License.
+ */
+
+package types
+
+// Verification contracts (comment-only, tag verif) for property C05: a TCC prepare registers its
+// Verification contracts (comment-only, tag verif) for property C08: decoding a column image that
+// phase one wrote never panics - for ANY bytes: whatever encoding/json puts into the map, every
+// conversion is checked.
+// encoding/json.Unmarshal has no contract: the engine then treats it as an unknown call that may
+// rewrite everything reachable from its arguments (here: the map it fills).
+//@ ext time.Parse
+//@   ensures true
+//@ ext encoding/base64.(*Encoding).DecodeString
+//@   ensures true
+//@ func ParseIndexType
+//@   trusted
+//@   ensures true
+
+//@ func (*ColumnImage).UnmarshalJSON
+//@   prop C08
+//@   requires c != nil
+//@   modifies heap.all
+//@   at return: assert text-is-kept-as-written: result == nil && localor("value", nil) != nil && isT(value, string) && (columnType == 1 || columnType == 12 || columnType == -1) ==> isT(c.Value, string) && c.Value.(string) == value.(string)
+//@   nopanic
